@@ -2,6 +2,7 @@
    This file: the bounded-buffer contract (for every text and capacity) and digit-exact integer printing.
    The RFC 8259 well-formedness of the produced text is tied by the correspondence + an independent parser (see DESIGN.md). -/
 import AJ.Model.JSer
+import AJ.Lemmas.Strip
 namespace C02
 open JSer
 
@@ -54,4 +55,56 @@ theorem buffer_content (text : List UInt8) (cap : Nat) (pt : Bool) (fill : UInt8
   rw [List.append_assoc, List.getElem?_append_left this, List.getElem?_take_of_lt (by omega)]
 
 example : (toBuffer [1, 2, 3] 2 true).ret = 2 ∧ (toBuffer [1, 2, 3] 4 true).nul = true := by decide
+
+/-! ## serializeJsonPretty and serializeJson differ only in insignificant whitespace
+
+`stripWs` (AJ/Lemmas/Strip.lean) is a three-state scanner over the text: outside string literals it drops the bytes
+0x20 0x09 0x0D 0x0A; a `"` enters a literal; inside, a backslash protects the next byte and an unprotected `"`
+leaves the literal; inside literals every byte is kept. -/
+
+/-- **The pretty text with its insignificant whitespace removed is the compact text**, for every document without
+    raw nodes (floats, NaN/Infinity included; any strings, also those containing quotes, backslashes, spaces, line
+    ends), at every nesting level `n` of the pretty printer. -/
+theorem pretty_strip_at (cfg : JD.Cfg) (n : Nat) (v : JD.Val) (h : C07.RawFree v) :
+    stripWs (pretty cfg n v) = compact cfg v := (strips_pretty cfg v n h).2
+
+theorem pretty_strip (cfg : JD.Cfg) (v : JD.Val) (h : C07.RawFree v) : stripWs (pretty cfg 0 v) = compact cfg v :=
+  pretty_strip_at cfg 0 v h
+
+/-- the compact text has no insignificant whitespace at all: stripping leaves it unchanged -/
+theorem compact_no_ws (cfg : JD.Cfg) (v : JD.Val) (h : C07.RawFree v) : stripWs (compact cfg v) = compact cfg v := by
+  rw [← pretty_strip cfg v h]; exact stripGo_idem .out _
+
+/-- hence both serializers produce the same text up to insignificant whitespace -/
+theorem pretty_compact_same (cfg : JD.Cfg) (v : JD.Val) (h : C07.RawFree v) :
+    stripWs (pretty cfg 0 v) = stripWs (compact cfg v) := by
+  rw [compact_no_ws cfg v h, pretty_strip cfg v h]
+
+/-- raw nodes are copied verbatim by both serializers, so the hypothesis is needed: a raw node holding a space -/
+example : stripWs (pretty {} 0 (.raw [0x20])) ≠ compact {} (.raw [0x20]) := by decide +kernel
+
+-- non-vacuity: {"a b":[1,"x\" y",-2.5],"c":{}} — the key and the string contain spaces and an escaped quote
+def sampleDoc : JD.Val :=
+  .obj [([0x61, 0x20, 0x62], .arr [.num (.uint 1), .str [0x78, 0x22, 0x20, 0x79], .num (.f64 0xC004000000000000)]),
+        ([0x63], .obj [])]
+
+example : pretty {} 0 sampleDoc =
+    [0x7B, 0x0D,0x0A, 0x20,0x20, 0x22,0x61,0x20,0x62,0x22, 0x3A,0x20, 0x5B, 0x0D,0x0A,
+     0x20,0x20,0x20,0x20, 0x31, 0x2C, 0x0D,0x0A,
+     0x20,0x20,0x20,0x20, 0x22,0x78,0x5C,0x22,0x20,0x79,0x22, 0x2C, 0x0D,0x0A,
+     0x20,0x20,0x20,0x20, 0x2D,0x32,0x2E,0x35, 0x0D,0x0A,
+     0x20,0x20, 0x5D, 0x2C, 0x0D,0x0A,
+     0x20,0x20, 0x22,0x63,0x22, 0x3A,0x20, 0x7B,0x7D, 0x0D,0x0A, 0x7D] := by decide +kernel
+
+example : compact {} sampleDoc =
+    [0x7B, 0x22,0x61,0x20,0x62,0x22, 0x3A, 0x5B, 0x31, 0x2C, 0x22,0x78,0x5C,0x22,0x20,0x79,0x22, 0x2C, 0x2D,0x32,0x2E,0x35,
+     0x5D, 0x2C, 0x22,0x63,0x22, 0x3A, 0x7B,0x7D, 0x7D] := by decide +kernel
+
+example : stripWs (pretty {} 0 sampleDoc) = compact {} sampleDoc :=
+  pretty_strip {} sampleDoc (by simp [C07.RawFree, sampleDoc, C07.AllV, C07.AllE, C07.AllM, C07.RawFreeS])
+
+-- the scanner itself on explicit bytes:  [ 1 , "a b\" c" ]  ->  [1,"a b\" c"]
+example : stripWs [0x5B, 0x20, 0x31, 0x0A, 0x2C, 0x09, 0x22,0x61,0x20,0x62,0x5C,0x22,0x20,0x63,0x22, 0x0D, 0x5D] =
+    [0x5B, 0x31, 0x2C, 0x22,0x61,0x20,0x62,0x5C,0x22,0x20,0x63,0x22, 0x5D] := by decide
+
 end C02
